@@ -32,6 +32,8 @@ NumVal(tok) ==
 StrVal(tok) ==
   CASE tok = "'a'" -> <<97>> [] tok = "'b'" -> <<98>> [] tok = "'c'" -> <<99>>
     [] tok = "'ab'" -> <<97, 98>> [] tok = "'male'" -> <<109, 97, 108, 101>>
+    [] tok = "'a  b'" -> <<97, 32, 32, 98>> [] tok = "'x // y'" -> <<120, 32, 47, 47, 32, 121>>
+    [] tok = "'/* z */'" -> <<47, 42, 32, 122, 32, 42, 47>> [] tok = "' b '" -> <<32, 98, 32>>
 
 Opaque(n) == [t |-> "opaque", n |-> n]
 
@@ -418,6 +420,13 @@ MiscTrees == <<
   Pol("+", Idx(PRanks, Lit("0"))), Bin("*", Pol("-", Idx(PRanks, Lit("1"))), Lit("2")), Idx(Inv(PRanks, Fn("tail", <<>>)), Lit("0")),
   Ty("is", Idx(Inv(PName, Id("given")), Lit("4")), <<"FHIR", "string">>), Inv(Idx(PRanks, Lit("1")), Fn("toString", <<>>)),
   Bin("+", Idx(PRanks, Lit("0")), Idx(PRanks, Lit("1"))), Bin("<", Idx(PRanks, Lit("0")), Idx(PRanks, Lit("1"))),
+  (* string literals that contain what would be white space or a comment between tokens: the renderings and every gap *)
+  (* decoration must leave the inside of the quotes alone                                                             *)
+  Lit("'a  b'"), Lit("'x // y'"), Lit("'/* z */'"), Lit("' b '"),
+  Bin("&", Lit("'a  b'"), Lit("'x // y'")), Bin("&", Lit("'/* z */'"), Lit("' b '")), Bin("=", Lit("'a  b'"), Lit("'ab'")),
+  Inv(Lit("'a  b'"), Fn("contains", <<Lit("' b '")>>)), Inv(Lit("'x // y'"), Fn("contains", <<Lit("'/* z */'")>>)),
+  Inv(Lit("'/* z */'"), Fn("contains", <<Lit("'b'")>>)), Bin("and", Bin("=", Lit("'x // y'"), Lit("'x // y'")), Lit("true")),
+  Inv(PName, Fn("select", <<Lit("'a  b'")>>)), Fn("iif", <<PActive, Lit("'x // y'"), Lit("'/* z */'")>>),
   Pol("-", Pol("-", Lit("7"))), Pol("-", Pol("+", Pol("-", Lit("7")))), Bin("-", Lit("7"), Pol("-", Lit("2"))),
   Bin("-", Pol("-", Lit("7")), Pol("-", Pol("-", Lit("2")))),
   Bin("/", Lit("6"), Lit("3")), Bin("/", Bin("/", Lit("12"), Lit("2")), Lit("3")), Bin("/", Lit("12"), Bin("/", Lit("6"), Lit("3"))),
